@@ -44,10 +44,10 @@ def run(chk, tier, seed):
                 add("abi_call %d %d %d passable 0" % (f, i, j), f=f, i=i, j=j, meth="passable", idx=0)
                 add("abi_call %d %d %d added 0" % (f, i, j), f=f, i=i, j=j, meth="added", idx=0)
                 add("abi_call %d %d %d gone 0" % (f, i, j), f=f, i=i, j=j, meth="gone", idx=0)
-    pairs = [("v0", "v0"), ("v0", "v1a"), ("v1a", "v0"), ("v0", "v1b"), ("v1b", "v0"), ("v0", "v1c"), ("v1c", "v0")]
+    pairs = [("v0", "v0"), ("v0", "v1a"), ("v1a", "v0"), ("v0", "v1b"), ("v1b", "v0"), ("v0", "v1c"), ("v1c", "v0"), ("v0", "v1d"), ("v1d", "v0")]
     for a, b in pairs:
         add("bad_connect %s %s" % (a, b), meth="bad", a=a, b=b)
-    bd = C.run_harness(binary, ["bd_%s_%d bad_def %s %d" % (a, v, a, v) for a in ("v0", "v1a", "v1b", "v1c") for v in (0, 1)])
+    bd = C.run_harness(binary, ["bd_%s_%d bad_def %s %d" % (a, v, a, v) for a in ("v0", "v1a", "v1b", "v1c", "v1d") for v in (0, 1)])
     obs = C.run_harness(binary, lines, timeout=1200)
     terms, oterms = [], []
     f1_seen = 0
